@@ -3,6 +3,7 @@ import glob
 import json
 import os
 import random
+import shutil
 
 from ..comp import heap
 from ..lib import coqrun, driver, env, proofs, report
@@ -56,8 +57,8 @@ def exhaustive_pure():
 
 def streams(tier, seed):
     rng = random.Random(seed)
-    nh = 260 if tier == "quick" else 3500
-    npure = 500 if tier == "quick" else 8000
+    nh = 260 if tier == "quick" else 2500
+    npure = 500 if tier == "quick" else 6000
     steps = 12 if tier == "quick" else 20
     hist = [heap.gen_case(rng, steps) for _ in range(nh)]
     pure = [heap.gen_pure(rng, 6 if tier == "quick" else 9) for _ in range(npure)]
@@ -74,7 +75,9 @@ def main(tier, seed):
     pr = proofs.check_property(PROP)
     proofs_ok = run.proofs(pr)
     env.use_repo()
-    d = coqrun.rundir(PROP)
+    # a private run directory: coqrun.rundir() empties the directory it returns, so two runs of
+    # the same property (e.g. a thorough run and somebody's quick run) must not share one
+    d = coqrun.rundir("%s_%s_%d_%d" % (PROP, tier, seed, os.getpid()))
     total_prop = 0
     try:
         for name, comp, cases, ctype, cfn, bits, cbits, shard in streams(tier, seed):
@@ -118,6 +121,7 @@ def main(tier, seed):
         "answers are checked on the implementation's outputs by the verified checkers only",
         "Python object identity observed with id() while all objects are alive",
         "modelled, not verified: QLCParser.__init__, _add_entries, __setitem__, flat_cluster('ward') wrapper"]
+    shutil.rmtree(d, ignore_errors=True)
     run.assumptions += ["cells and column names are immutable values (no operation of the family mutates a nested list in "
                         "place; the frame checker would notice)",
                         "column names are lower-case and outside the alias lists of wordlist.rc"]
@@ -132,9 +136,10 @@ def replay(path):
     env.use_repo()
     comp, case, ctype, cfn = heap.from_json(rep["case"])
     res = comp.run_impl(case)
-    d = coqrun.rundir(PROP + "_replay")
+    d = coqrun.rundir("%s_replay_%d" % (PROP, os.getpid()))
     bad = coqrun.eval_cases(d, "replay", heap.IMPORTS, ctype, cfn, [comp.render(case, res)])
     code = bad.get(0, 0)
+    shutil.rmtree(d, ignore_errors=True)
     print(json.dumps({"impl": comp.jsonable(case, res).get("impl"), "code": code,
                       "failed": [heap.BITS[k] for k in range(8) if code >> k & 1]}, indent=1, default=str)[:20000])
     return 1 if bad else 0
